@@ -12,9 +12,12 @@ option that is stored but not honoured is also seen.  Oracle `refopts`:
 from __future__ import annotations
 
 import builtins
+import contextlib
+import io
 import itertools
 import json
 import os
+import re
 import sys
 
 from .. import core
@@ -52,6 +55,16 @@ OPTIONS = {
     "symbol_skip_mem": ("bool", True, False),
     "enable_code_actions": ("bool", True, False),
 }
+
+# Other spellings of an option's value: "<option>#<form>" -> (option, value v1, value v2).  The configuration file reads a
+# list given for pp_defs as a list of names defined empty; whatever a channel makes of a spelling, the other must too.
+FORMS = {
+    "pp_defs#list": ("pp_defs", ["XDEF"], ["YDEF"]),
+    "pp_defs#list2": ("pp_defs", ["XDEF", "FROM_INC2"], ["YDEF", "XDEF"]),
+    "pp_defs#number": ("pp_defs", 3, 4),
+    "pp_defs#string": ("pp_defs", "XDEF", "YDEF"),
+}
+DEFAULT_NAMES = (".fortlsrc", ".fortls.json", ".fortls")
 
 FILES = {
     "a.f90": ("module ma\n  implicit none\n  type :: tt\n    integer :: comp\n  end type tt\n"
@@ -200,14 +213,26 @@ def _obs(sc, cli: dict, filecfg: dict | None, config_name=".fortlsrc"):
     argv = cli_args(cli)
     if config_name != ".fortlsrc":
         argv += ["--config", config_name]   # a configuration file that does not sit in the root directory
-    err, opts, beh, msgs, _ = observe(root, argv)
+    try:
+        with contextlib.redirect_stderr(io.StringIO()):
+            err, opts, beh, msgs, _ = observe(root, argv)
+    except SystemExit:
+        return "cli_rejected", None, None   # the command-line parser refuses the value (usage error)
     return err, opts, beh
 
 
 # ------------------------------------------------------------ single options
 def single_case(name, acc: Acc):
     sc = worker_scratch("c19")
-    kind, v1, v2 = OPTIONS[name]
+    label = name
+    form = None
+    if name in FORMS:
+        name, v1, v2 = FORMS[label]
+        kind = OPTIONS[name][0]
+        form = label.split("#")[1]
+    else:
+        kind, v1, v2 = OPTIONS[name]
+    ftag = {} if form is None else {"form": form}
     runs = {
         "default": _obs(sc, {}, None),
         "cli_v1": _obs(sc, {name: v1}, None),
@@ -219,14 +244,32 @@ def single_case(name, acc: Acc):
     }
     # the file gives the option its "empty" value (an empty list / object, false): still the file's value
     neutral = {"list": [], "bool": False, "json": {}}.get(kind)
+    if form is not None:
+        neutral = [] if isinstance(v1, list) else None
     if neutral is not None:
         runs["file_neutral"] = _obs(sc, {}, {name: neutral})
         runs["cli_v1_file_neutral"] = _obs(sc, {name: v1}, {name: neutral})
-    for label, (err, o, b) in runs.items():
-        acc.case(nontrivial_key=(name, label), outcome=json.dumps([o, b], sort_keys=True, default=str))
+    for run, (err, o, b) in runs.items():
+        acc.case(nontrivial_key=(label, run), outcome=json.dumps([o, b], sort_keys=True, default=str))
+    if any(err == "cli_rejected" for err, _, _ in runs.values()):
+        # the command line refuses this spelling altogether: then the file must not give it an effect either
+        (ef, of, bf), (ed, od, bd) = runs["file_v1"], runs["default"]
+        if ef or ed:
+            acc.violation(Violation("single", {"family": "single", "option": name, **ftag, "obs": "initialize_error", "relation": "file_v1"},
+                                    {"option": label, "run": "file_v1"}, "result", ef or ed, what=f"{label} file_v1"))
+            return
+        d = diff(of, od) + [k for k in diff(bf, bd) if k != "messages"]
+        if d:
+            acc.violation(Violation(
+                "single", {"family": "single", "option": name, **ftag, "relation": "cli_equals_file", "obs": "cli_rejects_file_accepts",
+                           "fields": ",".join(d)}, {"option": label, "relation": "cli_equals_file", "v1": v1, "v2": v2},
+                "no effect (the command line refuses the value)", {k: (of if k in of else bf).get(k) for k in d},
+                what=f"{label}: refused on the command line, but in the file it changes {d}"))
+        return
+    for run, (err, o, b) in runs.items():
         if err:
-            acc.violation(Violation("single", {"family": "single", "option": name, "obs": "initialize_error", "relation": label},
-                                    {"option": name, "run": label}, "result", err, what=f"{name} {label}"))
+            acc.violation(Violation("single", {"family": "single", "option": name, **ftag, "obs": "initialize_error", "relation": run},
+                                    {"option": label, "run": run}, "result", err, what=f"{label} {run}"))
             return
 
     def same(rel, x, y):
@@ -234,11 +277,11 @@ def single_case(name, acc: Acc):
         d1, d2 = diff(ox, oy), diff(bx, by)
         if d1 or d2:
             acc.violation(Violation(
-                "single", {"family": "single", "option": name, "relation": rel, "obs": "options_differ" if d1 else "behaviour_differs",
+                "single", {"family": "single", "option": name, **ftag, "relation": rel, "obs": "options_differ" if d1 else "behaviour_differs",
                            "fields": ",".join(d1 + d2)},
-                {"option": name, "relation": rel, "v1": v1, "v2": v2},
+                {"option": label, "relation": rel, "v1": v1, "v2": v2},
                 {k: (ox if k in ox else bx).get(k) for k in d1 + d2}, {k: (oy if k in oy else by).get(k) for k in d1 + d2},
-                what=f"{name}: {x} vs {y} differ in {d1 + d2}"))
+                what=f"{label}: {x} vs {y} differ in {d1 + d2}"))
 
     same("cli_equals_file", "cli_v1", "file_v1")
     same("cli_equals_file_outside_root_dir", "cli_v1", "file_v1_elsewhere")
@@ -250,7 +293,7 @@ def single_case(name, acc: Acc):
     if not diff(runs["default"][1], runs["cli_v1"][1]) and not diff(runs["default"][2], runs["cli_v1"][2]):
         acc.count("no_observable_effect")
     if len(acc.samples) < 2:
-        acc.sample({"option": name, "cli": cli_args({name: v1}), "file": {name: v2}})
+        acc.sample({"option": label, "cli": cli_args({name: v1}), "file": {name: v2}})
 
 
 # --------------------------------------------------------------------- pairs
@@ -299,7 +342,29 @@ def _fields_of(opt):
 
 
 # -------------------------------------------------------------------- faults
+def nested(nest, depth):
+    """Valid JSON, `depth` levels deep."""
+    return "[" * depth + "]" * depth if nest == "list" else '{"a":' * depth + "1" + "}" * depth
+
+
+# one option of every kind of value, for a value that is nested deeply
+DEEP_VALUE_OPTIONS = ("max_line_length", "sort_keywords", "hover_language", "source_dirs", "pp_defs")
+DEPTHS = (50, 5000)      # one the reader manages, one beyond any recursion limit in use
+
+
 def fault_files():
+    F = _fault_files()
+    # the faulty file is the one found under each of the default names
+    G = []
+    for label, text, need in F + [("unreadable", "", True)]:
+        if label.startswith("wrongtype:") or label.startswith("too_deep_value:"):
+            continue
+        for cfgname in DEFAULT_NAMES[1:]:
+            G.append((f"{label}@{cfgname}", text, need))
+    return F + G
+
+
+def _fault_files():
     F = [
         ("empty", "", True), ("truncated", '{"nthreads": 2, "hover_language": "x', True), ("trailing_garbage", '{"nthreads": 2} xyz', True),
         ("invalid_utf8", b'{"hover_language": "\xff\xfe"}', True), ("top_list", "[]", True), ("top_number", "3", True),
@@ -310,14 +375,29 @@ def fault_files():
     for name, (kind, _, _) in OPTIONS.items():
         for i, val in enumerate(wrong[kind]):
             F.append((f"wrongtype:{name}:{i}", json.dumps({name: val}), False))
+    # valid JSON that is nested more deeply than a recursive reader can follow: whether it is read (then a top-level list is
+    # not a configuration, and a nested value has the wrong type) or declared unreadable, initialization completes
+    for nest, depth in itertools.product(("list", "object"), DEPTHS):
+        F.append((f"too_deep:{nest}:{depth}", nested(nest, depth), nest == "list"))
+        if depth < 1000:
+            continue    # a nested value the reader manages is simply a value of the wrong type: alphabet `wrongtype` above
+        for name in DEEP_VALUE_OPTIONS:
+            F.append((f"too_deep_value:{name}:{nest}:{depth}", '{"%s": %s}' % (name, nested(nest, depth)), False))
     return F
+
+
+def _names(fname, message):
+    """Does the message name the file `fname` (and not a longer name that starts with it)?"""
+    return re.search(r"(?<![\w.])" + re.escape(fname) + r"(?!\.?\w)", message) is not None
 
 
 def fault_case(job, acc: Acc):
     label, text, need_message = job
     sc = worker_scratch("c19")
     cli = {"hover_language": "lang1", "max_line_length": 40}
-    special = label.split(":")[0]
+    base, _, cfgname = label.partition("@")
+    cfgname = cfgname or ".fortlsrc"       # no --config: the first default name present is the file read
+    special = base.split(":")[0]
     real_open = builtins.open
     argv = cli_args(cli)
     if special == "directory_in_place":
@@ -332,8 +412,8 @@ def fault_case(job, acc: Acc):
         root = build(sc, json.dumps({"hover_language": "lang1", "max_line_length": 40}), config_name=".fortls")
         argv += ["--config", "does_not_exist.json"]
     elif special == "unreadable":
-        root = build(sc, '{"hover_language": "lang2"}')
-        cfgp = os.path.join(root, ".fortlsrc")
+        root = build(sc, '{"hover_language": "lang2"}', config_name=cfgname)
+        cfgp = os.path.join(root, cfgname)
 
         def deny(path, *a, **k):
             if isinstance(path, (str, bytes, os.PathLike)) and os.path.abspath(os.fspath(path)) == cfgp:
@@ -341,14 +421,19 @@ def fault_case(job, acc: Acc):
             return real_open(path, *a, **k)
         builtins.open = deny
     else:
-        root = build(sc, text)
+        root = build(sc, text, config_name=cfgname)
     try:
         err, opts, beh, msgs, s = observe(root, argv, fake_pool=not label.startswith("wrongtype:nthreads"))
     finally:
         builtins.open = real_open
     acc.case(nontrivial_key=label, outcome=(err is None, len(msgs)))
     case = {"fault": label, "config_text": text if isinstance(text, str) else repr(text)}
-    tags = {"family": "faults", "fault": special if special != "wrongtype" else "wrongtype:" + label.split(":")[1]}
+    tags = {"family": "faults", "fault": special if special != "wrongtype" else "wrongtype:" + label.split(":")[1],
+            "config_name": cfgname}
+    if special in ("too_deep", "too_deep_value"):
+        tags.update(nest=base.split(":")[-2], depth=base.split(":")[-1])
+        if special == "too_deep_value":
+            tags["option"] = base.split(":")[1]
     if err is not None:
         acc.violation(Violation("faults", {**tags, "obs": "initialize_error"}, case, "initialize returns a result", err,
                                 what=f"{label}: initialize answered an error: {err}"))
@@ -356,6 +441,12 @@ def fault_case(job, acc: Acc):
     later = s.result("workspace/symbol", {"query": "ma"})
     if not isinstance(later, list):
         acc.violation(Violation("faults", {**tags, "obs": "later_request_failed"}, case, "a result", later, what=label))
+    # a message that names a configuration file names the one that was read, not another default name
+    if special not in ("directory_in_place", "explicit_missing", "explicit_missing_default_present"):
+        others = [n for n in DEFAULT_NAMES if n != cfgname and any(_names(n, m) for m in msgs)]
+        if others and not any(_names(cfgname, m) for m in msgs):
+            acc.violation(Violation("faults", {**tags, "obs": "message_names_other_file"}, case, f"the file read is {cfgname}", msgs,
+                                    what=f"{label}: the file read is {cfgname}, the message names {others}: {msgs}"))
     if need_message:
         if not msgs:
             acc.violation(Violation("faults", {**tags, "obs": "no_user_message"}, case, "a window/showMessage", msgs, what=label))
@@ -372,20 +463,28 @@ def main(ctx):
     ctx.rule = ("single: for each of 26 options the runs {default, CLI v1, file v1, file v2, CLI v1 + file v2, CLI v1 + empty "
                 "file}; pairs: all ordered pairs (A on the command line, B != A in the file); faults: 10 syntactically/"
                 "structurally invalid files, a wrong-typed value of every JSON kind for every option, unreadable file "
-                "(injected PermissionError), directory in place of the file, explicit --config path that does not exist. "
+                "(injected PermissionError), directory in place of the file, explicit --config path that does not exist; "
+                "valid JSON nested 50 / 5000 levels deep (lists, objects) as the whole file and, 5000 deep, as the value of one "
+                "option of each kind; every syntactic fault also with the file under the default names .fortls.json / .fortls (a message "
+                "that names a configuration file names the one read). single also runs pp_defs spelled as a list of names, a "
+                "number and a string on both channels (a spelling the command line refuses must have no effect in the file). "
                 "Observation = effective option vector + behaviour vector after the real initialize.")
     ctx.assumptions = ["store_true options can only be switched on from the command line",
                        "fault-injected PermissionError on open() of the configuration path stands for an unreadable file "
                        "(the sandbox runs as root)"]
-    acc = core.pmap(single_case, list(OPTIONS), chunk=1, budget_s=120, label="C19/single")
-    ctx.add_family("single", acc)
-    pairs = [(a, b) for a in OPTIONS for b in OPTIONS if a != b]
-    pacc = core.pmap(pair_case, pairs, chunk=2, budget_s=120, label="C19/pairs")
-    ctx.add_family("pairs", pacc, ordered_pairs=len(pairs))
-    faults = fault_files() + [("unreadable", "", True), ("directory_in_place", "", False), ("explicit_missing", "", True),
-              ("explicit_missing_default_present", "", True)]
-    facc = core.pmap(fault_case, faults, chunk=2, budget_s=120, label="C19/faults")
-    ctx.add_family("faults", facc)
+    only = getattr(ctx, "only", None)
+    if not only or "single" in only:
+        acc = core.pmap(single_case, list(OPTIONS) + list(FORMS), chunk=1, budget_s=120, label="C19/single")
+        ctx.add_family("single", acc, value_forms=list(FORMS))
+    if not only or "pairs" in only:
+        pairs = [(a, b) for a in OPTIONS for b in OPTIONS if a != b]
+        pacc = core.pmap(pair_case, pairs, chunk=2, budget_s=120, label="C19/pairs")
+        ctx.add_family("pairs", pacc, ordered_pairs=len(pairs))
+    if not only or "faults" in only:
+        faults = fault_files() + [("unreadable", "", True), ("directory_in_place", "", False), ("explicit_missing", "", True),
+                  ("explicit_missing_default_present", "", True)]
+        facc = core.pmap(fault_case, faults, chunk=2, budget_s=120, label="C19/faults")
+        ctx.add_family("faults", facc)
 
 
 def replay(rec):
